@@ -188,6 +188,7 @@ def _parse_output(res, out):
     if m:
         res.violated = m.group(1)
     m2 = re.search(r"Error: Action property (\S+) is violated", out) or \
+        re.search(r"Error: Temporal property (\S+) was violated", out) or \
         re.search(r"Error: Temporal properties were violated", out)
     if m2 and not res.violated:
         res.violated = m2.group(1) if m2.lastindex else "temporal"
